@@ -27,10 +27,17 @@ def rt : Runtime := Runtime.upper
 
 def threshold (n : Nat) : Nat := 64 * n + 2 ^ 20
 
-/-- `<function>/<kind>` of a site name (`f#kind#ordinal` here, `f/kind` in Model/Extract.lean) -/
+/-- `<function>/<kind>` of a site name `<pkg>.<function>#<ordinal>:<kind>` (the form the harness reduces a
+    Go panic to: innermost repository frame without its package, kind of run-time error) -/
 def normSite (p : String) : String :=
-  match (p.replace "#" "/").splitOn "/" with
-  | f :: k :: _ => f ++ "/" ++ k
+  match p.splitOn "#" with
+  | [f, r] =>
+    let fn := match f.splitOn "." with
+      | _ :: rest@(_ :: _) => ".".intercalate rest
+      | _ => f
+    match r.splitOn ":" with
+    | [_, k] => fn ++ "/" ++ k
+    | _ => p
   | _ => p
 
 def showStep {α : Type} (f : α → String) (withRest : Bool) (n : Nat) (s : Step α) : String :=
